@@ -4,25 +4,42 @@ from vlib import std, hbuild, recipes
 
 PID = "C24"
 META = {
-    "text": "Theorems (Properties_C24.v, closed under the global context) about an executable model of "
-            "TeChunkedParser::parse and the callers' loop (inBuf = remaining() + new bytes, output MemBuf with a "
-            "per-call potentialSpaceSize): for every body, every RFC 9112 chunking of it written by an independent "
-            "encoder (any hex case/leading zeros < 2^63, BWS, token/quoted-string extensions, trailer fields < 64 KB), "
-            "every segmentation and every capacity schedule the decoder never throws, never reports completion early, "
-            "emits only a prefix of the body, and once the input is complete and the remaining capacities cover the "
-            "body it returns true with output = body and remaining() = exactly the bytes after the encoding; 0x/0X "
-            "prefixes, non-hex sizes, sizes >= 2^63, a missing CRLF after size/extensions or after chunk data and "
-            "malformed extension names/values throw in every stage for every continuation; a proper prefix of a valid "
-            "encoding only ever asks for more. The model is tied to the code by differential runs of the extracted "
-            "model against the real TeChunkedParser writing into real MemBufs (sources compiled from the working tree, UBSan).",
-    "note": "Known finding C24-ext-trailing-bws-segmentation: `;name=value` followed by BWS and CRLF is rejected when it "
-            "arrives whole but accepted when a read ends right after the BWS (the checkpoint left behind by "
-            "parseChunkExtensions is re-entered through ParseStrictBws); proved as C24_malformed_ext_trailing_bws_refuted, "
-            "replayed on the harness from corpus/C24/known.txt. Trailer sections >= 64 KB are outside the theorem "
-            "(grabMimeBlock limit, stated as a hypothesis). Trusted: Coq kernel, extraction, harness/h_chunked.cc, "
-            "gen/gen_charsets.cc; the hand-written ChunkedModel.v is validated against the code only on the generated cases.",
-    "technique": "Coq proof (per-stage stability/commutation lemmas, induction on the chunk list and on the schedule; "
-                 "vm_compute sweeps over regenerated 256-entry character tables) + extracted-model differential correspondence",
+    "text": "15 theorems (Properties_C24.v, all closed under the global context) about an executable model of "
+            "TeChunkedParser::parse and of its callers' loop (inBuf = remaining() + newly read bytes; output MemBuf with a "
+            "per-call potentialSpaceSize). C24_dechunk_exact / C24_dechunk_safe_for_every_schedule: for EVERY body and every RFC 9112 "
+            "chunking of it produced by an independent encoder (chunk-size = any hex digits of value < 2^63 incl. leading zeros and "
+            "mixed case; chunk-ext = *(BWS ; BWS token [BWS = BWS (token | quoted-string with quoted-pairs)]); last-chunk with "
+            "extensions; trailer fields, section < 64 KB), followed by arbitrary bytes, for EVERY segmentation into reads and EVERY "
+            "schedule of output capacities, in both relaxed_header_parser modes: the decoder never throws, never gets stuck, never "
+            "reports completion early, its output is always a prefix of the body; and as soon as the whole encoding has been delivered "
+            "and the capacities offered from then on add up to |body| it returns true with output = body and remaining() = exactly the "
+            "bytes after the encoding (bytes consumed = the encoding). C24_truncated_only_asks_for_more: any schedule delivering only a "
+            "proper prefix of a valid encoding ends in 'need more'. Rejections, for every continuation of the input, every capacity, "
+            "both modes: 0x/0X prefix, non-hex first size character, size >= 2^63 (any number of digits), a byte other than BWS/;/CR "
+            "after the size (missing CRLF), chunk data not followed by CRLF; decided outcomes of the chunk-ext stage are final under "
+            "more input. The three character classes used by the grammar are proved equal to the regenerated/ modelled sets "
+            "(vm_compute sweep over 256 entries). C24_malformed_ext_trailing_bws_refuted: witness that acceptance of `;a=b BWS CRLF` "
+            "depends on segmentation (known finding). The model is tied to the code by differential runs of the extracted model "
+            "against the real TeChunkedParser writing into real MemBufs (sources compiled from the working tree, UBSan), per-call "
+            "trace (result, stage, needsMoreData/Space, |remaining()|, bytes appended), final state, remaining() and output compared.",
+    "note": "PARTIAL in these respects: (1) 'malformed extensions are rejected' holds only per buffer "
+            "(C24_malformed_ext_trailing_bws_unsplit_partial); across segmentations it is refuted for the pinned code "
+            "(C24_malformed_ext_trailing_bws_refuted, known finding C24-ext-trailing-bws-segmentation, reproducers in corpus/C24/known.txt, "
+            "candidate repair fixes/C24-ext-trailing-bws.diff); malformed extension names/values (EExtName, EToken, EQPair, EQdtext) are "
+            "covered by correspondence and the oracle, not by a dedicated theorem. (2) Rejection theorems are statements about one "
+            "parse() call from the relevant stage for every continuation; that earlier reads of a prefix cannot turn them into acceptance "
+            "rests on the checkpoint structure proved for valid inputs and on correspondence. (3) Hypotheses of the exactness theorem that "
+            "reflect real limits: trailer section (incl. final CRLF) < 65536 bytes (grabMimeBlock limit, otherwise the parser stops "
+            "with parse()==false and !needsMoreData()), every chunk-size numeral and every single chunk extension shorter than "
+            "2^32-1 bytes (SBuf::npos limit argument of Tokenizer::prefix/int64). (4) Not modelled: mimeHeader() contents "
+            "(cleanMimePrefix/unfoldMime of the trailer block), customExtensionValueParser (ICAP use-original-body). BWS tolerated after "
+            "chunk-size without extensions (Bug 4492) and VT/FF/bare-CR as BWS in relaxed mode are tolerances the oracle does not judge. "
+            "Trusted: Coq kernel, extraction, harness/h_chunked.cc, gen/gen_charsets.cc; the hand-written ChunkedModel.v is validated "
+            "against the code only on the generated cases (12.7k quick / 150k thorough).",
+    "technique": "Coq proof: stability-under-extension of every Tokenizer primitive and parser stage, restart-point lemma for the "
+                 "chunk-ext checkpoint with conditional commutation, inductive invariant of one parse() call (induction on fuel) and of "
+                 "the callers' loop (induction on the schedule), grammar-as-encoder instantiation; vm_compute sweeps over regenerated "
+                 "256-entry tables; + extracted-model differential correspondence + independent RFC 9112 reference reader as oracle",
 }
 
 FRESH = ["src/http/one/TeChunkedParser.cc", "src/http/one/Tokenizer.cc", "src/parser/Tokenizer.cc",
@@ -540,5 +557,5 @@ def run(res, tier):
                 "trailer sizes at the 64 KB limit; a case is non-trivial when parse() completed, produced output or was called at least twice")
     std.run_standard(res, PID, tier, area="chunked", build_impl=impl, gen_cases=gen_cases, oracle=oracle,
                      corr_name="ChunkedModel vs src/http/one/TeChunkedParser.cc, src/http/one/Tokenizer.cc, src/parser/Tokenizer.cc",
-                     gens=["charsets"], n_quick=12000, n_thorough=400000, seed_salt=24, mutate=mutate,
+                     gens=["charsets"], n_quick=12000, n_thorough=150000, seed_salt=24, mutate=mutate,
                      kind_fn=kind_fn, nontrivial_fn=nontrivial_fn)
